@@ -126,6 +126,11 @@ CORPUS_CASES = [
       {"type": "map", "values": ["int", "string"]}], {"x": 1, "-type": "A"}),
     ([{"type": "record", "name": "A1", "fields": [{"name": "x", "type": {"type": "array", "items": "int"}}]}, {"type": "map", "values": ["int", "string"]}], {"x": [1, 2, 3]}),
     ([{"type": "int", "logicalType": "zzz"}, "string"], "hello"),
+    (["int", "long"], 2147483648), (["int", "long"], -2147483649), (["int", "double"], 2147483648), (["null", "int", "float"], -2147483649),
+    ({"type": "array", "items": ["int", "long"]}, [2147483647, 2147483648, -2147483648, -2147483649]),
+    ({"type": "record", "name": "X", "fields": [{"name": "Y", "type": {"type": "record", "name": "a.Y", "fields": [
+        {"name": "e", "type": {"type": "enum", "name": "X", "symbols": ["P", "Q"]}}, {"name": "r", "type": "X"}]}}]},
+     {"Y": {"e": "Q", "r": "Q"}}),
 ]
 
 
